@@ -116,6 +116,9 @@ def convOp (st : DState) (line : String) : Option (DState × String) :=
     let bs := sched.toList.filterMap fun c => if c == '>' then some true else if c == '<' then some false else none
     let d (w : Bool) := AkeAbs.describe (AkeAbs.runSchedule (AkeAbs.startPattern (natArg pat) w) bs)
     some (st, if d true == d false then d true else s!"{d true}|{d false}")
+  | ["xtags", h] => (unhx h).map fun m => (st, match extractInstanceTags m with
+      | some (o, t) => s!"{o} {t} true"
+      | none => "0 0 false")
   | ["tick", d] => some ({ st with now := st.now + natArg d }, "ok")
   | ["setfrag", id, n] => (st.get id).map fun c => (st.put id { c with fragmentSize := natArg n }, "ok")
   | ["query", id] => (st.get id).map fun c => (st, hx (queryMessage c.policies c.friendlyQuery))
